@@ -258,3 +258,62 @@ def random_text(r, maxlen, alpha=None):
 def boundaries(s):
     b = s.encode("utf-8")
     return [i for i in range(len(b) + 1) if i == len(b) or (b[i] & 0xC0) != 0x80]
+
+
+# ---- (?=) injection (C03) ----
+LAE = ("look", "=", ("empty",))
+
+
+def _children(t):
+    k = t[0]
+    if k in ("cat", "alt"):
+        return [("list", 1, i) for i in range(len(t[1]))]
+    if k in ("grp", "ncg", "atomic"):
+        return [("pos", 1)]
+    if k == "look":
+        return [("pos", 2)]
+    if k == "flag":
+        return [("pos", 2)]
+    if k == "rep":
+        return [("pos", 1)]
+    if k == "condg":
+        return [("pos", 2), ("pos", 3)]
+    if k == "cond":
+        return [("pos", 1), ("pos", 2), ("pos", 3)]
+    return []
+
+
+def _get(t, c):
+    return t[c[1]][c[2]] if c[0] == "list" else t[c[1]]
+
+
+def _set(t, c, v):
+    l = list(t)
+    if c[0] == "list":
+        l[c[1]] = list(l[c[1]])
+        l[c[1]][c[2]] = v
+    else:
+        l[c[1]] = v
+    return tuple(l)
+
+
+def inject_sites(t, under_behind=False):
+    """all trees obtained by inserting one (?=) before or after one sub-expression"""
+    out = []
+    if not (under_behind and t[0] == "alt"):
+        out.append(("cat", [LAE, t]))
+        out.append(("cat", [t, LAE]))
+    for c in _children(t):
+        ub = t[0] == "look" and t[1] in ("<=", "<!") and c == ("pos", 2)
+        for v in inject_sites(_get(t, c), ub):
+            out.append(_set(t, c, v))
+    return out
+
+
+def inject_random(r, t, p=0.25, under_behind=False):
+    for c in _children(t):
+        ub = t[0] == "look" and t[1] in ("<=", "<!") and c == ("pos", 2)
+        t = _set(t, c, inject_random(r, _get(t, c), p, ub))
+    if not (under_behind and t[0] == "alt") and r.random() < p:
+        t = ("cat", [LAE, t]) if r.random() < 0.5 else ("cat", [t, LAE])
+    return t
